@@ -230,6 +230,15 @@ def weather_scenarios(ex, seed):
                         shift = 7.0 if month in (6, 7, 8) else 3.0 if month in (5, 9) else 0.0
                         for j in ti:
                             t[j] = "%.1f" % (float(t[j]) + shift)
+                        # two heat waves every July: daily means beyond the hot end of both AMAX temperature tables (35 degC for C3,
+                        # 42 degC for C4 crops: AMAX = 0 there and only its floor keeps the light response finite; seeded C09-22)
+                        day = int(t[0][8:10])
+                        if month == 7 and day in (10, 11, 12):
+                            for j in ti:
+                                t[j] = "%.1f" % (36.5 + 0.5 * ti.index(j))
+                        if month == 7 and day in (22, 23):
+                            for j in ti:
+                                t[j] = "%.1f" % (43.0 + 0.5 * ti.index(j))
                     else:
                         month = int(t[0][5:7])
                         shift = -5.0 if month in (11, 12, 1, 2, 3, 4) else -1.0
